@@ -39,9 +39,17 @@ def _spd_tensor(rng, base, spread, offdiag=True):
     return [[float(m[i, j]) for j in range(3)] for i in range(3)]
 
 
-def random_material(rng, cls=None):
-    """material dict + class tag; cls in iso / diag / full / lossy / magnetic / lossy_mag / full_lossy."""
-    classes = ("iso", "diag", "full", "lossy", "magnetic", "lossy_mag", "full_lossy")
+def random_material(rng, cls=None, spacing=None):
+    """material dict + class tag; cls in iso / diag / full / lossy / magnetic / lossy_mag / lossy_mag_vec / full_lossy.
+
+    With `spacing` given the magnetic conductivity is scaled to a loss number of 0.02..0.25 per step (so that it
+    matters at every tolerance used by the callers); without it the historical small values are drawn."""
+    classes = ("iso", "diag", "full", "lossy", "magnetic", "lossy_mag", "full_lossy", "lossy_mag_vec")
+
+    def sig_m_scalar():
+        if spacing is None:
+            return float(rng.uniform(1e2, 1e5))
+        return float(rng.uniform(0.02, 0.25)) * 2.0 * 376.73 / (0.57 * spacing)
     if cls is None:
         cls = classes[_int(rng, 0, len(classes) - 1)]
     m = {}
@@ -61,7 +69,14 @@ def random_material(rng, cls=None):
         m["eps"] = _spd_tensor(rng, 1.2, 3.0, offdiag=False)
         m["mu"] = float(rng.uniform(1.1, 2.0))
         m["sig_e"] = _spd_tensor(rng, 1e2, 1e4, offdiag=False)
-        m["sig_m"] = float(rng.uniform(1e2, 1e5))
+        m["sig_m"] = sig_m_scalar()
+    elif cls == "lossy_mag_vec":
+        # one-component permittivity / electric conductivity under a three-component magnetic conductivity
+        m["eps"] = float(rng.uniform(1.2, 4.0))
+        m["mu"] = float(rng.uniform(1.1, 2.0))
+        m["sig_e"] = float(rng.uniform(1e2, 3e4))
+        sm = sig_m_scalar()
+        m["sig_m"] = [sm * float(x) for x in rng.uniform(0.3, 1.0, size=3)]
     elif cls == "full_lossy":
         m["eps"] = _spd_tensor(rng, 1.5, 3.0)
         m["sig_e"] = float(rng.uniform(1e2, 3e4))
@@ -173,7 +188,7 @@ def random_scene(
     # material boxes (anywhere in the volume, may overlap each other and the PML)
     mats, mat_classes = [], []
     for i in range(_int(rng, 1, 2)):
-        m, cls = random_material(rng, cls=None if allowed_mats is None else allowed_mats[_int(rng, 0, len(allowed_mats) - 1)])
+        m, cls = random_material(rng, cls=None if allowed_mats is None else allowed_mats[_int(rng, 0, len(allowed_mats) - 1)], spacing=spacing)
         if rng.random() < dispersive_prob:
             # modest Lorentz / Drude pole around the source band; the Courant factor is lowered because
             # the coupled stability bound of dispersive media leaves no head-room at 0.99
